@@ -19,6 +19,7 @@ EXPLANATION = (
     "tighter than + - comparisons and boolean operators, looser than call/index/field; (SETS) the operator sets of infix, "
     "valid_infix and precedence agree; (PARENS) a parenthesised expression resolves to its content (no node is left)."
     " (SETS all-have-a-level) every token that can continue an expression (`(`, `[`, `.`, `'`, `->`, the operators) has a precedence level."
+    ' (ARROW rhs-level, shared with C14) the call after `->` ends before any binary operator.'
 )
 UNDECIDED = "`evaluates to the same value` beyond what the operator pipeline (C01) gives."
 
